@@ -23,11 +23,12 @@ type Opts struct {
 	HostileNames bool // hostile characters in application, type and field names (written %xx-escaped)
 	Annos        bool
 	WideStmts    bool // >= 3 siblings at each nesting level
+	Extras       bool // list fields, in-place tuples, collectors
 }
 
 func DefaultOpts(r *fw.Rand, thorough bool) Opts {
 	o := Opts{MaxApps: 4, MaxTypes: 5, MaxFields: 6, MaxEps: 4, MaxStmts: 4, MaxDepth: 3,
-		Rest: true, Events: true, Mixins: true, Namespace: true, Escapes: true, Annos: true}
+		Rest: true, Events: true, Mixins: true, Namespace: true, Escapes: true, Annos: true, Extras: true}
 	if thorough {
 		o.MaxApps, o.MaxTypes, o.MaxFields, o.MaxEps, o.MaxStmts, o.MaxDepth = 6, 8, 10, 6, 6, 6
 	}
@@ -195,6 +196,15 @@ func Build(r *fw.Rand, o Opts) *Spec {
 			}
 		}
 	}
+	if o.Extras {
+		for _, a := range s.Apps {
+			if r.Chance(1, 4) {
+				if c := b.collector(a); len(c) > 0 {
+					a.Members = append(a.Members, Member{Collector: c})
+				}
+			}
+		}
+	}
 	// mixins: an app may mix in an earlier-built abstract app that has only types
 	if o.Mixins && len(s.Apps) >= 2 {
 		for i, a := range s.Apps {
@@ -226,6 +236,63 @@ func Build(r *fw.Rand, o Opts) *Spec {
 		a.Members = ms
 	}
 	return s
+}
+
+func isPK(f *Field) bool {
+	for _, at := range f.Attrs {
+		if at.Tag && at.Name == "pk" {
+			return true
+		}
+	}
+	return false
+}
+
+// collector builds a `.. * <- *` block: attributes for one simple endpoint of the
+// application and for one call that occurs in it (at most one statement per target, names
+// distinct from every other attribute name).
+func (b *builder) collector(a *App) []*Stmt {
+	var out []*Stmt
+	mkAttrs := func() []Attr {
+		as := []Attr{{Name: "c_" + attrNames[b.r.Intn(len(attrNames))], Val: AttrVal{S: b.strVal()}}}
+		if b.r.Chance(1, 2) {
+			as = append(as, Attr{Name: "col" + tagNames[b.r.Intn(len(tagNames))], Tag: true})
+		}
+		return as
+	}
+	var simple []*Endpoint
+	for _, m := range a.Members {
+		if m.Ep != nil && !m.Ep.Event && len(m.Ep.SubOf) == 0 {
+			simple = append(simple, m.Ep)
+		}
+	}
+	if len(simple) > 0 && b.r.Chance(2, 3) {
+		out = append(out, &Stmt{ID: b.id(), Kind: "action", Text: simple[b.r.Intn(len(simple))].Name, Attrs: mkAttrs()})
+	}
+	var calls []*Stmt
+	var walk func(ss []*Stmt)
+	walk = func(ss []*Stmt) {
+		for _, s := range ss {
+			if s.Kind == "call" {
+				calls = append(calls, s)
+			}
+			walk(s.Body)
+			for _, c := range s.Cases {
+				walk(c.Body)
+			}
+		}
+	}
+	for _, ep := range a.AllEndpoints() {
+		walk(ep.Stmts)
+	}
+	if len(calls) > 0 && b.r.Chance(2, 3) {
+		c := calls[b.r.Intn(len(calls))]
+		t := c.Target
+		if c.Self {
+			t = a.Parts
+		}
+		out = append(out, &Stmt{ID: b.id(), Kind: "call", Target: t, Ep: c.Ep, Attrs: mkAttrs()})
+	}
+	return out
 }
 
 func (b *builder) mixesIn(a, target *App) bool {
@@ -467,6 +534,22 @@ func (b *builder) fillType(s *Spec, a *App, t *Type) {
 			}
 			if len(f.Annos) == 0 && f.T.Coll == "" && b.r.Chance(1, 8) {
 				f.Doc = b.phrase(1, 3)
+			}
+			if b.o.Extras && len(f.Annos) == 0 && f.Doc == "" && !isPK(f) && b.r.Chance(1, 8) {
+				lo := int64(b.r.Range(0, 3))
+				f.List = &SizeSpec{Kind: "range", A: lo, B: lo + int64(b.r.Range(1, 9))}
+				if b.r.Chance(1, 3) {
+					f.List = &SizeSpec{Kind: "open", A: lo}
+				}
+			}
+			if b.o.Extras && t.Kind == "type" && !isPK(f) && b.r.Chance(1, 10) {
+				f.Attrs, f.Annos, f.Doc, f.List = nil, nil, "", nil
+				f.T = TypeExpr{}
+				for k := b.r.Range(1, 3); k > 0; k-- {
+					g := &Field{ID: b.id(), Name: b.uniq(fieldWords, scope+f.Name)}
+					g.T = b.typeExpr(s, a, t, false)
+					f.Inplace = append(f.Inplace, g)
+				}
 			}
 			t.Fields = append(t.Fields, f)
 		}
